@@ -328,7 +328,12 @@ type sess struct {
 
 func newSess(strict bool) *sess {
 	s := &sess{}
-	opts := []state.MaterializerOption{state.WithOnReset(func() { s.resets++ }), state.WithOnSnapshot(func(b bool) { s.snaps = append(s.snaps, b) }), state.WithOnError(func(error) { s.onErrs++ })}
+	// the callbacks look at the materializer they belong to (a consumer logging "reset at offset ..."):
+	// they run in the middle of Apply and must not be locked out
+	opts := []state.MaterializerOption{
+		state.WithOnReset(func() { s.resets++; _ = s.mat.LastOffset() }),
+		state.WithOnSnapshot(func(b bool) { s.snaps = append(s.snaps, b); _ = s.mat.LastOffset() }),
+		state.WithOnError(func(error) { s.onErrs++; _ = s.mat.LastOffset() })}
 	if strict {
 		opts = append(opts, state.WithStrictSchema())
 	}
